@@ -89,6 +89,7 @@ CORPUS_DISCRETE = [
 	{'N': 3, 'h': [3, 2, 1], 'Ls': [1, 2, 1], 'p': 30, 'kind': 'CD', 'vals': [4, 5, 6, 7], 'probs': [0.2, 0.4, 0.3, 0.1],
 	 'cands': [[6, 12, 15], [6, 9, 10], [3, 4, 5]]},
 	{'N': 2, 'h': [1, 2], 'Ls': [1, 2], 'p': 9, 'kind': 'CD', 'vals': [6, 0, 9, 2], 'probs': [0.1, 0.5, 0.1, 0.3]},      # a demand list in no particular order
+	{'N': 1, 'h': [1], 'Ls': [2], 'p': 9, 'kind': 'CD', 'vals': [995, 1000, 1005], 'probs': [0.25, 0.5, 0.25]},            # demand in the thousands: an inventory grid of more than 2000 integer points
 ]
 CORPUS_NORMAL = [
 	{'N': 1, 'h': [1], 'Ls': [2], 'p': 10, 'mean': 20, 'sd': 1},      # same mean and lead time, different spread, in one process (a cache keyed without the spread)
